@@ -629,6 +629,33 @@ fn single_attr(cop: &mut COp) {
     if let COp::TextEmbed { v, .. } = cop {
         cut_nest(v);
     }
+    // ... and for a JSON map embedded into a text: where a text is rendered as a string (the
+    // string of a quotation that covers the embed) its entries appear in hash order
+    fn cut_any(a: &mut AnyV) {
+        match a {
+            AnyV::Map(m) => {
+                let first = m.iter().next().map(|(k, v)| (k.clone(), v.clone()));
+                m.clear();
+                if let Some((k, mut v)) = first {
+                    cut_any(&mut v);
+                    m.insert(k, v);
+                }
+            }
+            AnyV::Arr(v) => v.iter_mut().for_each(cut_any),
+            _ => {}
+        }
+    }
+    match cop {
+        COp::TextEmbed { v: CVal::Any(a), .. } => cut_any(a),
+        COp::TextDelta { ops } => {
+            for d in ops.iter_mut() {
+                if let CDelta::Embed(a, _) = d {
+                    cut_any(a);
+                }
+            }
+        }
+        _ => {}
+    }
     match cop {
         COp::TextInsert { attrs: Some(a), .. } | COp::TextEmbed { attrs: Some(a), .. } => cut(a),
         COp::TextFormat { attrs, .. } => cut(attrs),
